@@ -57,12 +57,15 @@ SHAPES = {
                          "struct db { ~db(); int i; };\nstruct dd : db { int j; };\nstruct hdd { dd m; };\n"
                          "struct vb { virtual void m(); };\nstruct vd : vb { int k; };\n"
                          "struct ab { int a[40]; };\nstruct ad : ab { int l; };\nstruct had { ad m; };\n"),
+    # an opaque union is still emitted as a Rust union (Copy, Clone only): what contains it by value must not derive more
+    "opaque-union": ("c", "union value { int i; float f; unsigned char raw[8]; };\nstruct holder { union value v; int tag; };\nstruct harr { union value vs[2]; };\n"),
     "noderive": ("c", "struct nd { int i; };\nstruct hnd { struct nd n; };\n"),
     "blocked": ("c", "struct blk { int i; };\nstruct hblk { struct blk b; int j; };\nstruct pblk { struct blk *b; };\n"),
 }
 EXTRA_FLAGS = {
     "noderive": ["--no-copy", "nd", "--no-debug", "nd", "--no-default", "nd", "--no-hash", "nd", "--no-partialeq", "nd"],
     "wide-floats-msvc": ["--", "--target=x86_64-pc-windows-msvc"],
+    "opaque-union": ["--opaque-type", "value"],
     "blocked": ["--blocklist-type", "blk", "--raw-line", "#[repr(C)] #[derive(Debug, Copy, Clone)] pub struct blk { pub i: i32 }"],
 }
 OPT_FLAGS = {
